@@ -116,6 +116,10 @@ def gen_cases(rng, tier):
             r = rng.random()
             if r < 0.2:
                 o = ['pow', _opd(rng, rng.choice(us), rng.choice('qu')), rng.choice([-2, -1, 0, 1, 2, 3])]
+                if o[2] < 0 and o[1][0] == 'q':
+                    # 0 ** -k raises different exceptions in Decimal and Fraction (dependency):
+                    # keep the stored amount away from zero whatever the quantum
+                    o[1][1] = ['dec', rng.choice(['1000/1', '-3000/1', '2000/1'])]
             elif r < 0.3:
                 n = rng.choice(NUMS)
                 a = _opd(rng, rng.choice(us), rng.choice('qu'))
@@ -158,9 +162,11 @@ _DM = ["MHEVEN"]
 def _val(w, opd):
     """(exact factor, dims over base units) of an operand; numbers have no dims"""
     if opd[0] == 'n':
+        _val.uf = F(1)
         return num_value(opd[1]), {}
     sym = opd[2] if opd[0] == 'q' else opd[1]
     f, d = w.unit_value(sym)
+    _val.uf = f            # factor of the unit alone (what the directory is asked for)
     a = num_value(opd[1]) if opd[0] == 'q' else F(1)
     if opd[0] == 'q':
         # the operand is built as number * unit: a quantized type stores it rounded
@@ -178,6 +184,7 @@ def expected(w, dm, m):
         if x[0] == 'n':
             return ('skip', 'number ** k')
         f, d = _val(w, x)
+        ufx = _val.uf
         if k == 0:
             return ('num', F(1))
         if f == 0 and k < 0:
@@ -185,10 +192,12 @@ def expected(w, dm, m):
             if w.cls_of_dims(RW.vpow(d, k)) is None:
                 return ('undef',)
             return ('zerodiv',)
-        return ('dim', f ** k, RW.vpow(d, k))
+        return ('dim', f ** k, RW.vpow(d, k), ufx ** k)
     x, y = m[1], m[2]
     fx, dx = _val(w, x)
+    ufx = _val.uf
     fy, dy = _val(w, y)
+    ufy = _val.uf
     if x[0] == 'n' and y[0] == 'n':
         return ('skip', 'numbers')
     for o in (x, y):
@@ -198,7 +207,7 @@ def expected(w, dm, m):
             if u['base'] and w.classes[u['cls']]['ref'] not in (None, s):
                 return ('skip', 'unit without definition in a type with reference unit')
     if m[0] == 'mul':
-        return ('dim', fx * fy, RW.vmul(dx, dy))
+        return ('dim', fx * fy, RW.vmul(dx, dy), ufx * ufy)
     if fy == 0:
         if y[0] == 'n':
             return ('zerodiv',)
@@ -207,6 +216,11 @@ def expected(w, dm, m):
         dd = RW.vmul(dx, RW.vpow(dy, -1))
         same = x[0] in 'qu' and y[0] in 'qu' and \
             w.units[x[2] if x[0] == 'q' else x[1]]['cls'] == w.units[y[2] if y[0] == 'q' else y[1]]['cls']
+        if same:
+            sx = x[2] if x[0] == 'q' else x[1]
+            sy = y[2] if y[0] == 'q' else y[1]
+            if sx != sy and (w.scale(sx) is None or w.scale(sy) is None):
+                return ('noconv',)
         if dd and not same:
             c = w.cls_of_dims(dd)
             if c is None or (w.classes[c]['ref'] is None and w.find_by_value(F(1), dd) is None):
@@ -218,7 +232,7 @@ def expected(w, dm, m):
         if w.units[sx]['cls'] == w.units[sy]['cls'] and sx != sy and \
                 (w.scale(sx) is None or w.scale(sy) is None):
             return ('noconv',)
-    return ('dim', fx / fy, RW.vmul(dx, RW.vpow(dy, -1)))
+    return ('dim', fx / fy, RW.vmul(dx, RW.vpow(dy, -1)), ufx / ufy)
 
 
 def oracle(case, r):
@@ -252,7 +266,7 @@ def oracle(case, r):
     if exp[0] == 'num':
         return None if res['k'] == 'num' and F(res['v']) == exp[1] else \
             f"{what}: expected the plain number {exp[1]}, got {res}"
-    _, value, dims = exp
+    _, value, dims, ufactor = exp
     n_units = sum(1 for o in m[1:] if isinstance(o, list) and o[0] in 'qu')
     both_units = all(isinstance(o, list) and o[0] == 'u' for o in m[1:3]) and m[0] != 'pow'
     if not dims:
@@ -262,14 +276,21 @@ def oracle(case, r):
             ok = res['k'] == 'num' and F(res['v']) == value
         return None if ok else f"{what}: dimensions cancel, expected the plain number {value}, got {res}"
     cls = w.cls_of_dims(dims)
-    if n_units == 1 and m[0] != 'pow' or (m[0] == 'pow' and m[2] == 1):
-        pass     # scaling by a number / power 1: type and unit kept (checked below)
+    # units of a type WITHOUT reference unit do not cancel against each other (EUR/USD):
+    # there the result is defined exactly when a declared unit corresponds to it
+    refless = [s for s in dims if w.classes[w.units[s]['cls']]['ref'] is None]
+    if refless and n_units == 2:
+        found = w.find_by_value(ufactor, dims) or w.find_by_value(F(1), dims)
+        if found is None:
+            return None if res['k'] == 'err' and res['e'] == 'EUndefinedResult' else \
+                f"{what}: no declared unit has the definition {dims}, expected UndefinedResultError, got {res}"
+        cls = w.units[found]['cls']
     if cls is None:
         return None if res['k'] == 'err' and res['e'] == 'EUndefinedResult' else \
             f"{what}: no declared type has dimension {dims}, expected UndefinedResultError, got {res}"
     if w.classes[cls]['ref'] is None and res['k'] == 'err' and res['e'] == 'EUndefinedResult':
         # type without reference unit: defined only if a unit with that definition exists
-        if w.find_by_value(value, dims) is None and w.find_by_value(F(1), dims) is None:
+        if w.find_by_value(ufactor, dims) is None and w.find_by_value(F(1), dims) is None:
             return None
         return f"{what}: a unit for {dims} is declared but UndefinedResultError was raised"
     if both_units:
